@@ -1,10 +1,16 @@
 mod ast;
+mod c01;
 mod c19;
 mod c19b;
 mod common;
 mod desc;
+mod kat;
+mod keys;
 mod policy;
+mod rsm;
+mod sat;
 mod terms;
+mod world;
 
 use common::*;
 use miniscript::{BareCtx, Legacy, Segwitv0, Tap};
@@ -56,6 +62,19 @@ fn main() {
             0
         }
         "C19" => c19::run(tier),
+        "C01" => c01::run(c01::Prop::C01, tier),
+        "C02" => c01::run(c01::Prop::C02, tier),
+        "C09" => c01::run(c01::Prop::C09, tier),
+        "kat" => match kat::run_kats() {
+            Ok(n) => {
+                println!("{} KATs ok", n);
+                0
+            }
+            Err(e) => {
+                println!("KAT FAILED: {}", e);
+                2
+            }
+        },
         other => {
             eprintln!("unknown check {}", other);
             2
